@@ -63,6 +63,17 @@ def run_unit(u, tier):
                                 'n_functions_seen': len(j.get('func-details', {}) or {})}
             out['failures'] += [dict(f, unit=u.name, model=u.model, **{'pass': w}) for f in fails]
             out['infra'] += infra
+    if tier == 'thorough' and not out['infra']:
+        # stability: re-run pass A under two more solver seeds; an obligation that flips is unstable (exit 2), not a violation
+        base = (out['passes']['A']['verified'], out['passes']['A']['errors'])
+        for sd in (7, 13):
+            res = driver.run_verus(path, 'A', 8, tuple(getattr(u, 'verus_extra', {}).get('A', ())) + ('--smt-option', 'smt.random_seed=%d' % sd))
+            j = res['json'] or {}
+            vr = j.get('verification-results', {})
+            if (vr.get('verified', 0), vr.get('errors', 0)) != base:
+                out['infra'].append('pass A is unstable under smt.random_seed=%d: %s verified / %s errors instead of %s / %s' % (
+                    sd, vr.get('verified'), vr.get('errors'), base[0], base[1]))
+        out['stability_seeds'] = [7, 13]
     # canaries: each must FAIL
     ncan = sum(1 for t in u.table if t[4] == 'canary')
     failed_can = set(f['obligation'] for f in out['failures'] if f.get('canary'))
